@@ -345,7 +345,8 @@ class Polygon(Shape2D):
         i_y, i_x, _ = np.abs(np.sum(diag_sums, axis=0) / 12)
 
         xy_sums = areas * (xi_yip1 + 2 * (xi_yi + xip1_yip1) + xip1_yi)
-        i_xy = np.abs(np.sum(xy_sums) / 24)
+        # The product of inertia is signed; only the orientation sign is removed.
+        i_xy = np.sign(np.sum(areas)) * np.sum(xy_sums) / 24
 
         return i_x, i_y, i_xy
 
@@ -403,7 +404,9 @@ class Polygon(Shape2D):
         c_x = np.sum((verts[:, 0] + verts_shifted[:, 0]) * delta_term)
         c_y = np.sum((verts[:, 1] + verts_shifted[:, 1]) * delta_term)
 
-        in_plane_centroid = np.array([c_x, c_y, 0]) / (6 * self.area)
+        # Dividing by the signed (doubled) area makes the result independent of
+        # whether the vertices run clockwise or counterclockwise about the normal.
+        in_plane_centroid = np.array([c_x, c_y, 0]) / (3 * np.sum(delta_term))
 
         # We've rotated into the plane, so the z position of all vertices
         # should be equal. We take the average to improve numerical stablity.
